@@ -9,8 +9,8 @@
 // result: one token per event: the content of the generation files 0 .. generations
 //   (one more than configured, to see strays): "<n>=<lines, each ended by ','>" or
 //   "<n>!" when the file does not exist, joined by ';'.  An event that throws gives
-//   "E:<exception>" and ends the history.  After "##" per event: whether generation 1
-//   changed (a roll-over happened) and the policy's counter.
+//   "E:<exception>" and ends the history.  After "##" per event: the policy's counter
+//   (mNumberOfEntries resp. mCurrentFilesize) - an internal observable.
 #include <dirent.h>
 #include <sys/stat.h>
 #include <unistd.h>
